@@ -375,6 +375,7 @@ def extract(repo: str):
     emit(f"def terminator : Char := Char.ofNat {tr_mod.TERMINATOR[0]}")
     js["delimiter"] = msg_mod.DELIMITER
     emit(f"def defaultVersion : Ver := .{dict((k, v) for k, v, _ in VERS)[default]}")
+    emit(f"def defaultVersionStr : String := {lean_str(default)}")
     vk = []
     for k, v, _ in VERS:
         a, b = k.split(".")
